@@ -588,6 +588,9 @@ func (x *Exec) applyContract(st *State, f *Frame, con *Contract, sig *types.Sign
 	}
 	if res != nil {
 		st.assumeAllocated(res) // after `fresh` results have been added to the allocation set
+		if con.Lib {
+			assumeNotOurSentinel(st, res)
+		}
 	}
 	for _, cl := range con.Clauses {
 		if cl.Kind == "ensures" {
@@ -659,6 +662,7 @@ type FrameLoc struct {
 	FamPrefix string // all families with this prefix
 	Exact     bool   // FamPrefix is a full family name
 	Idx       []Term // first index (object ref / row); nil = whole family
+	typ       types.Type
 }
 
 // targetLocs evaluates a modifies target to heap locations.
@@ -745,6 +749,24 @@ func (x *Exec) targetLocs(env *Env, m *Expr) []FrameLoc {
 			fam := mapFam(mt.Key(), mt.Elem())
 			r := tv.V.(Sc).T
 			return []FrameLoc{{FamPrefix: "MD|" + fam, Exact: true, Idx: []Term{r}}, {FamPrefix: "MV|" + fam + "|", Idx: []Term{r}}}
+		case "pointee":
+			// everything the pointer boxed in an interface value points to
+			tv := env.eval(m.Args[0])
+			iv, ok := tv.V.(IfaceV)
+			if !ok {
+				sfail("pointee() needs an interface value")
+			}
+			n, ok := isIntLit(iv.Tag)
+			if !ok {
+				return []FrameLoc{{FamPrefix: ""}} // unknown dynamic type: anything may change
+			}
+			t := reg.tagType(n)
+			pt, ok := t.(*types.Pointer)
+			if !ok {
+				return nil // not a pointer: nothing to modify
+			}
+			root, p, idx, _ := st.resolve(ObjAddr{iv.Pay, pt.Elem()})
+			return []FrameLoc{{FamPrefix: root + "|" + p, Idx: idx[:1], typ: pt.Elem()}}
 		case "hdrmap":
 			// the rows of a map[string][]string (http.Header, url.Values) given by reference
 			tv := env.eval(m.Args[0])
@@ -838,7 +860,9 @@ func (x *Exec) materialise(st *State, loc FrameLoc) {
 	}
 	kind, tname, path := parts[0], parts[1], parts[2]
 	var t types.Type
-	if kind == "G" {
+	if loc.typ != nil {
+		t = loc.typ
+	} else if kind == "G" {
 		t = x.eng.globalType(tname)
 	} else {
 		t = x.eng.typeByCanon(tname)
@@ -1165,5 +1189,20 @@ func (x *Exec) checkSinks(st *State, f *Frame, c *ssa.CallCommon, args []Val) {
 			cn = name
 		}
 		x.emit(st, "sink", cn, cl.Text, cl.Props, g)
+	}
+}
+
+// assumeNotOurSentinel: an error value produced by library code is never one of this module's own
+// package-level error sentinels (payloads -1..-999); library sentinels are <= -1000.
+func assumeNotOurSentinel(st *State, v Val) {
+	switch x := v.(type) {
+	case IfaceV:
+		if _, ok := isIntLit(x.Pay); !ok {
+			st.assume(Or(Cmp(">=", x.Pay, IntLit(0)), Cmp("<=", x.Pay, IntLit(-1000))))
+		}
+	case TupleV:
+		for _, e := range x.E {
+			assumeNotOurSentinel(st, e)
+		}
 	}
 }
